@@ -25,6 +25,7 @@ def ctor(case):
     idx, c, key = case
     line = {"kind": "ctor", "num": c["num"], "den": c["den"], "key": key or "", "in": [], "raised": "", "out": [],
             "outAbs": [], "copyOut": [], "copyNum": -1, "copyDen": -1, "copyKey": "", "copyRaised": "", "copyEquals": False,
+            "later": {"done": False, "barKey": "", "copyKey": "", "sigSame": True, "barOut": [], "copyOut": [], "equals": True},
             "case": {"c": c, "key": key}}
     seq = build(c, via(idx))
     line["in"] = P.raw_rel(seq)
@@ -47,6 +48,16 @@ def ctor(case):
         line["copyNum"], line["copyDen"] = cp.time_signature_numerator, cp.time_signature_denominator
         line["copyKey"] = kname(cp.key_signature)
         line["copyEquals"] = bool(cp.sequence.equals(bar.sequence)) and bool(bar.sequence.equals(cp.sequence))
+        # history: the bar is transposed (its key changes), then copied again: the copy is the bar as it is now
+        import copy as _copy
+        b2 = _copy.deepcopy(bar)
+        b2.transpose(2 if idx % 2 else -5)
+        c2 = b2.copy()
+        line["later"] = {"done": True, "barKey": kname(b2.key_signature), "copyKey": kname(c2.key_signature),
+                         "sigSame": bool(c2.time_signature_numerator == b2.time_signature_numerator
+                                         and c2.time_signature_denominator == b2.time_signature_denominator),
+                         "barOut": P.raw_rel(b2.sequence), "copyOut": P.raw_rel(c2.sequence),
+                         "equals": bool(c2.sequence.equals(b2.sequence))}
     except Exception as e:
         line["copyRaised"] = f"{type(e).__name__}: {e}"
     return line
